@@ -142,13 +142,14 @@ def run_case(case, st=None):
         for ex, desc in spec.get("orderby") or []:
             try: R.ev(ex, row, ctx)
             except (R.Err, R.Latitude): pass
+    if spec.get("groupby") and not R.eval_pattern(spec["where"], ctx):
+        # latitude: the algebra gives zero groups, the W3C test agg-empty-group expects one empty solution; not judged either way
+        st.setdefault("_count", {})["spec_latitude_dropped"] = 1; return None
     if not case.get("no_carve"):
         # rdflib computes every aggregate for every group, also for the groups HAVING removes
         carve |= agg_triggers(spec, [(None, None, None, grp) for grp in R.groups_of(spec, ctx)])
         if R.STATS["str_of_bnode"]: carve.add("C08-str-of-bnode")
         if R.STATS["float_arithmetic"]: carve.add("C08-avg-float-promotion")
-        grouped_q = bool(spec.get("groupby"))
-        if grouped_q and not R.eval_pattern(spec["where"], ctx): carve.add("C08-group-by-on-empty-input")
         if R.STATS["error_through_function_argument"]: carve.add("C08-error-through-function")
     for x in carve: st.setdefault("_known", {})[x] = 1
     if carve:
